@@ -198,7 +198,7 @@ text("C07",
 # ---------------------------------------------------------------------------------------------------------------
 # what the scenarios gained during the seeded-change waves (DESIGN.md section 11); appended to the texts above
 ADDED = {
-    "C01": "impostors also tamper with the proof fields of their own final handshake messages (left out, shortened, zeroed, inverted, halves swapped, two bytes under one mask), present the expected label under another name type, use keys that were listed and removed again, and make preparatory attempts (own root in the intermediate slot, ...) against the server's long-lived verifier before the real attempt",
+    "C01": "in half of the impostor-client runs the server is built by the REAL hopserver.NewHopServer, so the verification policy is what the constructor derives from the configuration (CA certificates, enable/disable switches); impostors also tamper with the proof fields of their own final handshake messages (left out, shortened, zeroed, inverted, halves swapped, two bytes under one mask), present the expected label under another name type, use keys that were listed and removed again, and make preparatory attempts (own root in the intermediate slot, ...) against the server's long-lived verifier before the real attempt",
     "C02": "two complete sweeps in the quick tier: per offset the masks single-bit, 0x80 and two seeded ones, every neighbouring byte pair under one mask, every truncation length alone and again right behind a full copy of the datagram from another address, 28 replacements",
     "C03": "type-byte substitution on genuine packets, cross-injection of genuine packets between sessions and directions, late network duplicates of the handshake datagrams with the session outliving the server's handshake timeout",
     "C04": "un-nested validity windows and forged intermediates naming a trusted root (signed with real keys through an overlay hook on the internal issuing routine), explicit verification times incl. past instants, names built through the public constructors, long-lived stores shared by many queries, stores loaded from PEM bundles, every question asked again on the same store",
